@@ -223,11 +223,17 @@ def outcome(fn):
         return ["other", "Malformed:" + type(e).__name__, repr(pl)[:200]]
 
 
+HANGS = [0]
+
+
 def guarded(fn, seconds):
+    if HANGS[0] >= 3:                  # enough evidence of non-termination; do not spend minutes on the rest
+        return ["skipped"]
     signal.alarm(seconds)
     try:
         return outcome(fn)
     except implutil.Hang:
+        HANGS[0] += 1
         return ["hang"]
     finally:
         signal.alarm(0)
